@@ -132,7 +132,7 @@ def provider(rates, calls, expect=None):
 
 
 _REFILL = {}
-ELSEWHERE = (-1.0, 0.2, 0.3)       # for the "point" prior: the plasma has other values in the half space x < 0
+ELSEWHERE = (-1.0, 0.2, 0.3)       # for the "point" prior: the plasma has other values outside a small box around the test point
 
 
 def _profile(value, elsewhere, stepped):
@@ -140,7 +140,9 @@ def _profile(value, elsewhere, stepped):
     if not stepped:
         return Constant3D(value)
     from raysect.core.math.function.float.function3d.autowrap import PythonFunction3D
-    return PythonFunction3D(lambda x, y, z: elsewhere if x < -0.5 else value)
+    # the record's value in a small box around the point under test (0.1, 0.2, 0.3), the other value everywhere else: a
+    # quantity read at a point with one coordinate mixed up (x, y, y) comes out as the other value
+    return PythonFunction3D(lambda x, y, z: value if (abs(x - 0.1) < 0.04 and abs(y - 0.2) < 0.04 and abs(z - 0.3) < 0.04) else elsewhere)
 
 
 def fill(p, rec, vel=None, stepped=False):
